@@ -148,13 +148,25 @@ pub fn run_search(game: &Game, state: &mut PersistentState, limit: &Limit, stop_
     let restrictions = SearchRestrictions { depth };
     let mut reporter = RecReporter::default();
     let (mut ts, control) = TimeStrategy::new(game, &tc, &options);
-    verif_hooks::arm(stop_at_poll);
+    // stop_at_poll >= EXPIRY: not the stop flag but the time limit reads as expired from poll
+    // (stop_at_poll - EXPIRY) on (hook H4) - the other way a search comes to an end
+    if stop_at_poll >= EXPIRY {
+        #[cfg(hook_expiry)]
+        verif_hooks::arm_expiry(stop_at_poll - EXPIRY);
+        #[cfg(not(hook_expiry))]
+        verif_hooks::arm(stop_at_poll - EXPIRY);
+    } else {
+        verif_hooks::arm(stop_at_poll);
+    }
     let r = catch(|| search::search(game, state, &mut ts, &restrictions, &options, &mut reporter));
     let polls = verif_hooks::polls();
     let stopped_at = stopped_at();
     verif_hooks::arm(0);
     r.map(|best| Outcome { best, infos: reporter.infos, polls, control, stopped_at })
 }
+
+/// Offset that marks a poll index as "limit expired at this poll" instead of "stop flag set at this poll".
+pub const EXPIRY: u64 = 1_000_000_000;
 
 /// Like `run_search`, but another thread calls the real `Control::stop()` after `delay_us` microseconds.
 pub fn run_search_with_stopper(game: &Game, state: &mut PersistentState, limit: &Limit, delay_us: u64) -> Result<Outcome, String> {
@@ -240,7 +252,9 @@ pub fn check_reports(pos: &Pos, infos: &[InfoRec], depth_limit: Option<u8>, st: 
 
 pub fn check_lines(pos: &Pos, infos: &[Line], depth_limit: Option<u8>, st: &mut Stats) -> Result<(), Fail> {
     let fen = pos.to_fen();
-    let mut expect_depth = 1u8;
+    // "reported depths increase one by one": each report is one deeper than the one before; the
+    // statement does not say where the sequence starts (any depth >= 1 may come first)
+    let mut expect_depth = infos.first().map_or(1, |i| i.depth.max(1));
     for info in infos {
         let line = &info.text;
         if info.depth != expect_depth {
